@@ -254,8 +254,8 @@ class BMCI:
                 sigmas[i] = np.sqrt(np.sum(
                     (self.x[i_l:i_u].ravel() - xs[i]) ** 2.0 * ws.ravel() / c))
             else:
-                xs[i] = np.float("nan")
-                sigmas[i] = np.float("nan")
+                xs[i] = np.nan
+                sigmas[i] = np.nan
         return xs, sigmas
 
     def crps(self, y_obs, x_true, x2_max = -1.0):
@@ -301,7 +301,7 @@ class BMCI:
                 scores[i] = np.trapz((ws_cum - indicator) ** 2.0,
                                      xs)
             else:
-                scores[i] = np.float("nan")
+                scores[i] = np.nan
 
         return scores
 
@@ -356,7 +356,7 @@ class BMCI:
         if ws_cum[-1] > 0.0:
             ws_cum /= ws_cum[-1]
         else:
-            ws_cum = np.float("nan")
+            ws_cum = np.nan
         return xs, ws_cum
 
     def pdf(self, y_obs, x2_max = -1, n_points = 21):
@@ -494,5 +494,5 @@ class BMCI:
                 ws_cum /= ws_cum[-1]
                 qs[i, :] = np.interp(taus, ws_cum, xs)
             else:
-                qs[i, :] = np.float("nan")
+                qs[i, :] = np.nan
         return qs
